@@ -219,4 +219,19 @@ theorem generated_secret_key_survives_serialisation (chk : Bool) (N j : Nat) (hN
     (by rw [lF, hNj]) (by rw [lG, hNj]) (by rw [← hNj]; exact hntru) hinv (fun x hx => hcap x (by simp [hx]))
   exact ⟨b, finv, cg', h1, h2, h3, h4, h5, h6⟩
 
+/-- **the public key of a generated key survives serialisation — for every seed**: for both variants, the public key
+    derived from a key returned by the modelled key generation serialises to exactly 897 / 1793 bytes and `from_bytes`
+    returns it unchanged (hypothesis beyond the run: `window=ok` for the key, C04) -/
+theorem generated_public_key_survives_serialisation (chk : Bool) (N j : Nat) (hN : (N = 512 ∧ j = 8) ∨ (N = 1024 ∧ j = 9))
+    (seed : List Nat) (f g cF cG : List Int) (k : Nat)
+    (h : Keygen.ntruGen chk N seed = .ok (.key f g cF cG k)) (hw : Keygen.entryWindow f g = true) :
+    ∃ finv pk, Zq.batchInv chk (Ntt.ntt (j + 1) (Ntt.toZq f)) = .ok finv ∧
+      Ntt.intt (j + 1) (Ntt.hadamard (Ntt.ntt (j + 1) (Ntt.toZq g)) finv) = .ok pk ∧
+      pkFromBytes N (pkToBytes pk) = .ok (.ok pk) ∧ (pkToBytes pk).length = 1 + N * Gen.pkWidth / 8 := by
+  obtain ⟨lf, lg, _, _, _, hinv, _⟩ := C04.model_generated_keys_are_ntru_trapdoors chk N j hN seed f g cF cG k h hw
+  have hN' : (N = 512 ∧ j + 1 = 9) ∨ (N = 1024 ∧ j + 1 = 10) := by
+    rcases hN with ⟨a, b⟩ | ⟨a, b⟩ <;> simp [a, b]
+  exact derived_public_key_roundtrips chk N (j + 1) hN' (Ntt.toZq f) (Ntt.toZq g)
+    (by simp [Ntt.toZq, lf]) (by simp [Ntt.toZq, lg]) (Ntt.toZq_lt f) (Ntt.toZq_lt g) hinv
+
 end Falcon.Props.C05
